@@ -52,7 +52,8 @@ const (
 	FeatWithdrawInDial = 32  // C01 hub: the stored pairing is withdrawn while the hub's own dial is in flight
 	FeatAppInCallback  = 64  // C18: the application works (sleeps, approves the pairing) inside ServicePairingDetailUpdate
 	FeatDualStack      = 128 // hub rig: services announce an IPv6 and an IPv4 address, the .local host name may not resolve
-	FeatAll            = 255
+	FeatPartition      = 256 // C05: partition that heals (everything sent meanwhile arrives when it ends)
+	FeatAll            = 511
 )
 
 // SetFeatForRig forces the dual-stack options of the next hub rig (workloads
